@@ -1325,8 +1325,19 @@ def seq_loop(interp, st, it, frame):
     from .engine import _Break, _Continue
     try:
         interp.exec_block(st.body, frame)
-    except (_Break, _Continue):
-        raise Unsupported("break/continue in a loop over a symbolic list", st)
+    except _Break:
+        raise Unsupported("break in a loop over a symbolic list", st)
+    except _Continue:
+        # on this path the arbitrary element is SKIPPED: every local list that was empty before the loop may end
+        # up with fewer elements than the input (filter-map); its length is only known to be in [0, n]
+        for k, (v, n0) in lists_before.items():
+            if n0 == 0:
+                m = interp.run.fresh_int("filtered_len")
+                interp.run._add(z3.And(m >= 0, m < seq.length()))
+                frame.locals[k] = SSeq(m, label=f"filter({seq.label})")
+        if st.orelse:
+            interp.exec_block(st.orelse, frame)
+        return
     grown = [(k, v, n0) for k, (v, n0) in lists_before.items() if len(v) != n0]
     for k, (v, n0) in seqs_before.items():
         if len(v.appended) != n0:
